@@ -193,7 +193,7 @@ REVERTS = [
                 continue
 """, ""),
     ('revert-F48-lossy-float-to-int-cast', ['C07', 'C18', 'C19'], 'fastparquet/writer.py',
-     """                if not np.isfinite(values).all() or (values != np.trunc(values)).any():
+     """                if (out.astype("float64") != data.values).any():
 """, """                if False:
 """),
     ('revert-F49-int-metadata-believed-blindly', ['C17'], 'fastparquet/api.py',
